@@ -13,7 +13,7 @@ EXPLANATION = ('llsym runs the real mj_constraintUpdate_impl (the function every
                'normal component >= 0 and friction-weighted tangential norm bounded by it (on the cone boundary in the middle zone, zero in the top zone); the bottom zone is entered only when '
                'mu*N + T <= 0. Also mju_decodePyramid(mju_encodePyramid(f)) = f for forces inside the cone, pyramid edge forces >= 0, decode gives normal = sum of edges.'
                ' One Gauss-Seidel sweep of the real solPGS over one island (mj_solPGS_island, numeric callees stubbed with solver-chosen values): each scalar row ends as the projection of old force - residual / diagonal onto the admissible set of its row type.')
-BOUNDS = {'quick': {'rows': 'friction, limit, pyramidal, elliptic condim 1, 3, 4', 'pyramid': 'condim 1, 3, 4', 'PGS sweep': 'one iteration, scalar rows, two interleaved islands of 5-6 global rows (layouts a, b)'}, 'thorough': {'rows': '+ elliptic condim 6', 'pyramid': '+ condim 6'}}
+BOUNDS = {'quick': {'rows': 'friction, limit, pyramidal, elliptic condim 1, 3, 4, 6', 'pyramid': 'condim 1, 3, 4, 6', 'PGS sweep': 'one iteration, scalar rows, two interleaved islands of 5-6 global rows (layouts a, b, c; either island)'}, 'thorough': {'same': True}}
 OUTSIDE = 'qfrc_constraint = J^T efc_force (sparse/dense mulJacTVec), mj_contactForce (adhesion offset), forces produced by solver iterations other than through this function and one PGS sweep over scalar rows (elliptic blocks of PGS, Nesterov extrapolation beyond the first iteration, CG / Newton iterations, convergence).'
 ASSUMPTIONS = cu.__dict__.get('ASSUMPTIONS', ['D > 0, R > 0 with D*R = 1, floss >= 0, mu > 0, friction > 0', 'rows of one elliptic contact satisfy D_j mu^2 = D_0 friction_{j-1}^2 (mj_makeImpedance)', 'real-number semantics'])
 BUDGET = {'quick': 600, 'thorough': 2400}
@@ -184,7 +184,7 @@ def units(tier):
          ('admissible_pyr', 'unit_rows', {'rows': [('pyr', 0)], 'tag': 'pyr'}), ('admissible_ell1', 'unit_rows', {'rows': [('ell', 1)], 'tag': 'ell1'}),
          ('admissible_ell3', 'unit_rows', {'rows': [('ell', 3)], 'tag': 'ell3'}), ('admissible_ell4', 'unit_rows', {'rows': [('ell', 4)], 'tag': 'ell4'}),
          ('admissible_mixed', 'unit_rows', {'rows': [('eq', 0), ('fric', 0), ('limit', 0), ('ell', 3)], 'tag': 'mixed'})]
-    for d in ([1, 3, 4] if tier == 'quick' else [1, 3, 4, 6]): u.append(('pyramid_dim%d' % d, 'unit_pyramid', {'dim': d}))
-    for lay_, k in ([('a', 1), ('b', 0)] if tier == 'quick' else [('a', 0), ('a', 1), ('b', 0), ('b', 1), ('c', 0), ('c', 1)]): u.append(('pgs_%s_island%d' % (lay_, k), 'unit_pgs_sweep', {'layout': lay_, 'island': k}))
-    if tier == 'thorough': u.append(('admissible_ell6', 'unit_rows', {'rows': [('ell', 6)], 'tag': 'ell6'}))
+    for d in [1, 3, 4, 6]: u.append(('pyramid_dim%d' % d, 'unit_pyramid', {'dim': d}))
+    for lay_, k in [('a', 0), ('a', 1), ('b', 0), ('b', 1), ('c', 0), ('c', 1)]: u.append(('pgs_%s_island%d' % (lay_, k), 'unit_pgs_sweep', {'layout': lay_, 'island': k}))
+    u.append(('admissible_ell6', 'unit_rows', {'rows': [('ell', 6)], 'tag': 'ell6'}))
     return u
